@@ -510,7 +510,7 @@ pub fn gen_plan(rng: &mut Rng, k: &HistKnobs) -> HistPlan {
             c.push(Op::UpdateRaw { s: texts[(i + 1) % n].clone(), owned: false });
             c.push(Op::Predict(0));
         }
-    } else if k.min_clients >= 2 && rng.chance(1, 2) {
+    } else if k.min_clients >= 2 && (k.text_pool || rng.chance(1, 2)) {
         // thread tier: same program shape on every client (different texts), so that threads
         // running in near lock-step contend for whatever the predictor might share
         let shape = clients[0].clone();
